@@ -170,3 +170,20 @@ def replay(body):
         return 1 if bad else 0
     finally:
         rp.close()
+
+
+def require_coverage(r, alphabet, allow_zero=()):
+    """vacuity guard for the design checks: every action named in the alphabet was taken at least once (TLC -coverage 1)"""
+    from .core import MachineryError
+    variants = {'Fit': ['Fit'], 'Query': ['Query', 'QueryUnfitted'], 'Sample': ['Sample', 'SampleUnfitted'],
+                'ToDict': ['ToDict', 'ToDictUnfitted']}
+    missing = []
+    for a in alphabet:
+        for act in variants.get(a, [a]):
+            if act in allow_zero:
+                continue
+            if r.coverage.get(act, (0, 0))[1] == 0:
+                missing.append(act)
+    if missing:
+        raise MachineryError('design check is vacuous: action(s) never taken: %s' % ', '.join(missing))
+    return {a: r.coverage[a][1] for a in r.coverage if r.coverage[a][1]}
